@@ -6,6 +6,7 @@ use serde_json::json;
 use std::time::Duration;
 use tokio::task::JoinHandle;
 
+pub mod bcast_watch;
 pub mod chmux_block;
 pub mod chmux_data;
 pub mod chmux_life;
